@@ -24,16 +24,19 @@ Print Assumptions C05_cinfo_chars_utf8.
    before/after are slot indices in [0, n_slots) after associateChars.  The model computes both (assoc_pass1/2) and they are
    compared with the implementation on every run; the implementation-side oracle evaluates the two clauses directly. *)
 
-(* The char-info clause is REFUTED in the model for operation sequences that delete a slot without re-associating (ASSOC):
-   two characters, the second slot deleted, then associateChars: char-info 1 gets after = 0 but before stays -1, which is not
-   a slot index.  No shipped font produces such a sequence (their rules always re-associate); see DESIGN.md section 7 (F10). *)
-Theorem C05_cinfo_slot_indices_refuted : exists ops st, Forall (op_ok 2) ops /\ run_ops (st0 2 false) ops = Ok st /\
-  exists c, In c (st_cinfo st) /\ c_before c < 0.
-Proof.
-  exists [OAppend 0%N 0; OAppend 1%N 1; ODelete 1%N; OAssocChars]. eexists. split; [repeat constructor; cbn; lia|].
-  split; [vm_compute; reflexivity|]. exists (mkci (-1) 0). split; [right; left; reflexivity|cbn; lia].
-Qed.
-Print Assumptions C05_cinfo_slot_indices_refuted.
+(* After associateChars a char-info never has just one side set: a character whose slot was deleted without ASSOC is reached
+   from one neighbouring slot only, and takes both its before and after from it (the loop added by the fix recorded in
+   known_findings.txt; before it, such a character kept before = -1 — the former witness C05_cinfo_slot_indices_refuted). *)
+Theorem C05_cinfo_sides_together : forall st st', do_assocchars st = Ok st' ->
+  forall c, In c (st_cinfo st') -> (c_before c < 0 <-> c_after c < 0).
+Proof. exact assocchars_sides_together. Qed.
+Print Assumptions C05_cinfo_sides_together.
+
+(* the former counterexample: two characters, the second slot deleted without ASSOC — both sides of char 1 are now slot 0 *)
+Example C05_deleted_without_assoc :
+  match run_ops (st0 2 false) [OAppend 0%N 0; OAppend 1%N 1; ODelete 1%N; OAssocChars] with
+  | Ok st => map (fun c => (c_before c, c_after c)) (st_cinfo st) = [(0, 0); (0, 0)] | Err _ => False end.
+Proof. vm_compute. reflexivity. Qed.
 
 Example C05_example :
   match run_ops (st0 2 false) [OAppend 0%N 0; OAppend 1%N 1; OInsert 2%N (Some 1%N); OAssoc 2%N [Some 0%N; Some 1%N]; OAssocChars] with
